@@ -1279,7 +1279,7 @@ def _replace(t, path, new):
 
 # ---------------------------------------------------------------- exploration
 COUNTS = {
-    'quick': {'lf': 1600, 'tpl': 1400, 'rl': 800, 'cond': 2400, 'sem': 288, 'hvcg': 320},
+    'quick': {'lf': 1200, 'tpl': 1400, 'rl': 600, 'cond': 2400, 'sem': 160, 'hvcg': 240},
     'thorough': {'lf': 50000, 'tpl': 50000, 'rl': 30000, 'cond': 70000, 'sem': 8000, 'hvcg': 8000},
 }
 
